@@ -1026,9 +1026,29 @@ class Variable(CanBehaveLikeAVariable[T]):
     def _generate_combinations_for_child_vars_values_(
         self, sources: Optional[Dict[int, HashedValue]] = None
     ):
-        yield from generate_combinations(
-            {k: var._evaluate__(sources) for k, var in self._child_vars_.items()}
+        """
+        Yield one keyword -> result mapping per consistent binding of the child variables: each child is evaluated
+        under the bindings of the previous ones (two arguments over the same variable see the same element) and
+        lazily (nothing is pulled from a domain before it is needed).
+        """
+        yield from self._child_vars_combinations_from_(
+            list(self._child_vars_.items()), sources or {}, {}
         )
+
+    def _child_vars_combinations_from_(
+        self,
+        child_vars: List[Tuple[str, SymbolicExpression]],
+        sources: Dict[int, HashedValue],
+        chosen: Dict[str, OperationResult],
+    ):
+        if not child_vars:
+            yield dict(chosen)
+            return
+        (name, var), remaining = child_vars[0], child_vars[1:]
+        for result in var._evaluate__(sources):
+            yield from self._child_vars_combinations_from_(
+                remaining, result.bindings, {**chosen, name: result}
+            )
 
     def _process_output_and_update_values_(
         self, instance: Any, kwargs: Dict[str, OperationResult]
